@@ -31,7 +31,15 @@ class T(object):
 
 
 def _mk(op, args, sort, val=None):
-    key = (op, sort, val if op in ('const', 'var') else None) + tuple(id(a) if isinstance(a, T) else a for a in args)
+    n = len(args)
+    if n == 2:
+        key = (op, sort, id(args[0]), id(args[1]))
+    elif n == 0:
+        key = (op, sort, val)
+    elif n == 1:
+        key = (op, sort, id(args[0]))
+    else:
+        key = (op, sort) + tuple(id(a) for a in args)
     t = _table.get(key)
     if t is None:
         t = T(op, args, sort, val)
@@ -91,6 +99,9 @@ def to_int_of_bool(a):
 
 
 def _coerce(a, b):
+    sa = a.sort
+    if sa == b.sort and sa != 'B':
+        return a, b
     a = to_int_of_bool(a)
     b = to_int_of_bool(b)
     if a.sort != b.sort:
@@ -509,3 +520,118 @@ def free_vars(t, acc=None):
             if isinstance(y, T):
                 stack.append(y)
     return acc
+
+
+def subst(t, mapping):
+    """Replace variables by name: mapping name -> T."""
+    memo = {}
+
+    def go(x):
+        k = id(x)
+        if k in memo:
+            return memo[k]
+        if x.op == 'var':
+            r = mapping.get(x.val, x)
+        elif x.op == 'const':
+            r = x
+        else:
+            a = [go(y) if isinstance(y, T) else y for y in x.args]
+            r = rebuild(x, a)
+        memo[k] = r
+        return r
+    return go(t)
+
+
+def rebuild(x, a):
+    op = x.op
+    if op == 'add':
+        return add(*a)
+    if op == 'sub':
+        return sub(*a)
+    if op == 'neg':
+        return neg(*a)
+    if op == 'mul':
+        return mul(*a)
+    if op == 'div':
+        return div(*a)
+    if op == 'toreal':
+        return to_real(*a)
+    if op == 'floor':
+        return floor(*a)
+    if op == 'idiv':
+        return idiv(*a)
+    if op == 'imod':
+        return imod(*a)
+    if op == 'lt':
+        return lt(*a)
+    if op == 'le':
+        return le(*a)
+    if op == 'eq':
+        return eq(*a)
+    if op == 'not':
+        return not_(*a)
+    if op == 'and':
+        return and_(*a)
+    if op == 'or':
+        return or_(*a)
+    if op == 'ite':
+        return ite(*a)
+    if op.startswith('uf:'):
+        return uf(op[3:], a, x.sort)
+    raise ValueError(op)
+
+
+def model_value(model, t):
+    """Python value of term t in a z3 model (Fraction / int / bool)."""
+    v = model.eval(to_z3(t), model_completion=True)
+    if t.sort == 'B':
+        return z3.is_true(v)
+    if t.sort == 'I':
+        return v.as_long()
+    if z3.is_rational_value(v):
+        return Fraction(v.numerator_as_long(), v.denominator_as_long())
+    if z3.is_algebraic_value(v):
+        return Fraction(str(v.approx(20).as_fraction()))
+    return Fraction(str(v))
+
+
+def fold_bounds(conjuncts):
+    """Drop redundant one-sided bounds (term vs constant) from a conjunction:
+    keeps the tightest lower and upper bound per term.  Logically equivalent
+    to the input conjunction."""
+    lower = {}   # id(term) -> (term, value, strict)
+    upper = {}
+    rest = []
+    for c in conjuncts:
+        neg = False
+        a = c
+        if a.op == 'not':
+            neg = True
+            a = a.args[0]
+        if a.op in ('lt', 'le') and (a.args[0].is_const() != a.args[1].is_const()):
+            l, r = a.args
+            strict = a.op == 'lt'
+            if neg:          # not (l < r)  ==  r <= l ;  not (l <= r) == r < l
+                l, r = r, l
+                strict = not strict
+            # now: l (< or <=) r
+            if l.is_const():     # const < term : lower bound on term
+                t, v = r, l.val
+                cur_ = lower.get(id(t))
+                if cur_ is None or v > cur_[1] or (v == cur_[1] and strict and not cur_[2]):
+                    lower[id(t)] = (t, v, strict)
+            else:                # term < const : upper bound
+                t, v = l, r.val
+                cur_ = upper.get(id(t))
+                if cur_ is None or v < cur_[1] or (v == cur_[1] and strict and not cur_[2]):
+                    upper[id(t)] = (t, v, strict)
+        else:
+            rest.append(c)
+    out = []
+    for t, v, strict in lower.values():
+        k = _c(t.sort, v)
+        out.append(lt(k, t) if strict else le(k, t))
+    for t, v, strict in upper.values():
+        k = _c(t.sort, v)
+        out.append(lt(t, k) if strict else le(t, k))
+    return out + rest
